@@ -80,3 +80,22 @@ Fixpoint tree_hyps_run (s : st) (ops : list op_t) : bool :=
   | [] => true
   | o :: ops' => static_requester_b o && no_tree_reattached_b s o && tree_hyps_run (apply_op_t s o) ops'
   end.
+
+(* documented step state transitions: a step row that exists before and after a transaction keeps
+   its state, is made PENDING from SUCCEEDED / FAILED by the state propagation (mark_step_pending),
+   or is the subject of the operation and receives the state the operation assigns *)
+Definition pm_b (a b : sstate) : bool :=
+  sstate_eqb a b || (sstate_eqb b SPending && (sstate_eqb a SSucceeded || sstate_eqb a SFailed)).
+Definition step_move_b (o : op_t) (l : str) (a b : sstate) : bool :=
+  pm_b a b ||
+  match o with
+  | OpBase (OpDispatch l') => str_eqb l l' && (sstate_eqb b SRunning || sstate_eqb b SChecking)
+  | OpBase (OpExecEnd l' _ _ _ _ _) =>
+    str_eqb l l' && (sstate_eqb b SSucceeded || sstate_eqb b SFailed || sstate_eqb b SPending)
+  | OpBase (OpResetToPending l') | OpBase (OpValidatePending l') => str_eqb l l' && sstate_eqb b SPending
+  | OpBase (OpDefineStep _ l' _ _ _ _ _) => str_eqb l l' && sstate_eqb b SPending
+  | OpBase OpResetInterrupted =>
+    (sstate_eqb a SRunning && (sstate_eqb b SFailed || sstate_eqb b SPending)) ||
+    (sstate_eqb a SChecking && sstate_eqb b SPending)
+  | _ => false
+  end.
